@@ -351,7 +351,83 @@ def r3_merges(prog, res, sev):
                 "%s != 0 raises the file's severity to WARNING or worse" % cnt if ok else "%s no longer raises the file's severity" % cnt)
 
 
+STREAM_SCOPE = ("STEPfile::ReadData1", "STEPfile::ReadData2", "STEPfile::CreateInstance", "STEPfile::ReadInstance",
+                "STEPfile::CreateScopeInstances", "STEPfile::ReadScopeInstances", "STEPcomplex::STEPread", "STEPfile::ReadHeader")
+_BAD_STREAM = ("printed when the stream is no longer good() right after the keyword: every later read of this instance fails and is recorded "
+               "(replayed with a file truncated after '#1=CARTESIAN_POINT': 1 error, exit 1)")
+STREAM_OK = {
+    ("STEPfile::ReadData1", "ERROR: trying to recover from invalid data. skipping: "):
+        "pass 1 only indexes instances; the same text is met again by pass 2, which records and counts it",
+    ("STEPfile::CreateInstance", "Unexpected file problem in"): _BAD_STREAM,
+    ("STEPfile::ReadInstance", "Unexpected file problem in"): _BAD_STREAM,
+    ("STEPfile::ReadInstance", "ERROR in EXCHANGE FILE: incomplete instance #"):
+        "arm of the switch on the instance's own severity: the condition is already recorded in obj->Error(), which ReadData2 counts",
+}
+COUNTERS = {"_errorCount", "_entsInvalid", "_warningCount"}
+
+
+def r6_stream_errors(prog, res, sev):
+    """A line that says ERROR on cout/cerr while the data section is read must come with a recorded error: a raise of some
+    ErrorDescriptor, an increment of the file's error counters, or the return of 'no instance' (which every caller counts)."""
+    from rules.c03 import is_ed_call, RAISERS, covered
+    n = 0
+    keys = {}
+    for name in STREAM_SCOPE:
+        for f in prog.fn(name):
+            cfg = f.cfg
+            stops = set()
+            for x in f.walk():
+                if x["k"] == "Call" and is_ed_call(x, RAISERS):
+                    stops.add(cfg.locate(x))
+                if x["k"] == "Unary" and x.get("op") in ("pre++", "post++") and strip(x["ch"][0]) is not None and strip(x["ch"][0]).get("n") in COUNTERS:
+                    stops.add(cfg.locate(x))
+                if x["k"] == "Return" and x.get("ch") and strip(x["ch"][0]) is not None and \
+                        (strip(x["ch"][0])["k"] == "Null0" or strip(x["ch"][0]).get("val") == 0 or
+                         (x["ch"][0].get("m") or strip(x["ch"][0]).get("m") or "") in ("ENTITY_NULL", "S_ENTITY_NULL", "NULL_ENTITY")):
+                    stops.add(cfg.locate(x))
+                # returning an error severity hands the condition to the caller
+                if x["k"] == "Return" and x.get("ch") and strip(x["ch"][0]) is not None and strip(x["ch"][0])["k"] == "Ref" and \
+                        strip(x["ch"][0])["n"].startswith("SEVERITY_") and strip(x["ch"][0]).get("val", 99) <= sev.get("SEVERITY_WARNING", -99):
+                    stops.add(cfg.locate(x))
+            stops.discard(None)
+            for c in f.calls():
+                if not (c.get("opcall") == "<<" and len(c["ch"]) == 2):
+                    continue
+                a = strip(c["ch"][1])
+                if a is None or a["k"] != "Str" or not a["s"].lstrip("\n").startswith("ERROR"):
+                    continue
+                n += 1
+                k = "R6|%s|%s|%s" % (f.relfile(), f.name, a["s"].strip()[:40])
+                keys[k] = keys.get(k, 0) + 1
+                ordinal = keys[k]
+                if keys[k] > 1:
+                    k += "#%d" % keys[k]
+                # the whole message: literals of the enclosing << chain
+                top = c
+                while True:
+                    par = f.parent.get(top["i"])
+                    if par is not None and par["k"] == "Call" and par.get("opcall") == "<<":
+                        top = par
+                    else:
+                        break
+                whole = " ".join(x["s"] for x in walk(top) if x["k"] == "Str")
+                why = STREAM_OK.get((f.name, a["s"]))
+                for (fn_, frag), reason in STREAM_OK.items():
+                    if fn_ == f.name and frag in whole and frag != a["s"]:
+                        why = reason
+                if why:
+                    res.add("R6.stream_error_recorded", k, f.where(c), True, "frozen: " + why)
+                    continue
+                ok = covered(cfg, f, cfg.locate(c), stops)
+                res.add("R6.stream_error_recorded", k, f.where(c), ok,
+                        "the condition announced on the stream is also recorded (raise, error counter or 'no instance' result) on every path" if ok else
+                        "%s prints %r but neither raises an error descriptor, nor counts an error, nor returns 'no instance' on every path "
+                        "through it: data is dropped while the file is still reported clean" % (f.name, a["s"].strip()[:50]))
+    res.floor("R6", "ERROR lines printed while reading the data section", n, 12)
+
+
 def run(prog, res, sev):
+    r6_stream_errors(prog, res, sev)
     r3_merges(prog, res, sev)
     r4_exit_gate(prog, res, sev)
     r5_dropped(prog, res, sev)
